@@ -1,7 +1,8 @@
 (** C03 — written files are structurally valid PDF.
-    Only statements here; proofs live in theories/C03/{Sound,WriterProofs,FullTable,FullObjects,Full}.v. *)
+    Only statements here; proofs live in theories/C03/{Sound,WriterProofs,FullTable,FullObjects,Full,BodyOfSer}.v. *)
 From OxVerif Require Import Base.Util C03.Checker C03.Writer C03.Sound C03.WriterProofs
-  C03.FullTable C03.FullObjects C03.Full.
+  C03.FullTable C03.FullObjects C03.Full C03.BodyOfSer.
+From OxVerif Require C09.Model.
 
 (** the independent checker is sound for the declarative predicate: header, end of file,
     table position, every in-use entry points at "n g obj", /Size exact, unique numbers,
@@ -188,9 +189,8 @@ Print Assumptions c03_writer_object_framing.
                          inside satisfies P
       RefOk ids (n, g)   g = 0, n >= 1, n is one of the written ids (also for /Root, /Info)
       file shorter than 10^10 bytes.
-    NOT derived here: [BodyOk] for the bytes produced by the C09 serialiser model ([C09.ser]):
-    C09's round-trip theorems are about C09's two readers, not about this checker's
-    [parse_obj]; the hypothesis is evaluated per produced file (valid_pdf) instead. *)
+    [BodyOk] IS derived for the bytes produced by the C09 serialiser model ([C09.Model.ser esc_iso]),
+    see c03_bodyok_of_ser / c03_writer_output_valid_ser at the end of this file. *)
 Theorem c03_writer_output_valid : forall ver objs root info,
   VerOk ver ->
   (forall id body, In (id, body) objs -> BodyOk (RefOk (List.map fst objs)) body) ->
@@ -227,3 +227,154 @@ Example c03_rejects_stale_length : exists b, pdf_code b = 7.
 Proof. eexists. exact demo_stale_length. Qed.
 Example c03_rejects_dangling_reference : exists b, pdf_code b = 8.
 Proof. eexists. exact demo_dangling_reference. Qed.
+
+(** * [BodyOk] derived for the C09 serialiser model (theories/C03/BodyOfSer.v)
+    The checker's OWN value reader [parse_obj] reads [ser esc_iso v ++ tail] back as the checker's
+    value [cv v] and stops exactly at [tail], for every [tail] that starts with a non-regular byte
+    and does not make the "n g R" look-ahead fire ([TailOk]: the writer's "\nendobj\n",
+    "\nstream\n", "]", " " + next element, "\n/" next key, "\n>>" all are), with any fuel above
+    the length.  Class [ck_ok]: bytes of hex strings < 256, bytes of names in 1..255 (every C09 [wf]
+    value without a NUL byte in a name is in it: [wf_ck]; it is larger than [wf]: no [arr_ok], no
+    i64 / object-number bounds).  [cv]: integers and integer-valued reals -> OInt, other reals ->
+    OReal, both string kinds -> OStr, names decoded, arrays in order, dictionaries in the
+    writer's sorted order, references. *)
+(** (1) scalars: null, booleans, signed integers, reals, literal strings with escapes, hex strings, names incl. #XX, references *)
+Theorem c03_ser_scalar_reads : forall v, scalar v = true -> ck_ok v = true -> forall tail fuel, TailOk tail ->
+  (length (C09.Model.ser C09.Model.esc_iso v) < fuel)%nat ->
+  parse_obj fuel (C09.Model.ser C09.Model.esc_iso v ++ tail) = Some (cv v, tail).
+Proof. exact read_scalar. Qed.
+Check c03_ser_scalar_reads : forall v, scalar v = true -> ck_ok v = true -> forall tail fuel, TailOk tail ->
+  (length (C09.Model.ser C09.Model.esc_iso v) < fuel)%nat ->
+  parse_obj fuel (C09.Model.ser C09.Model.esc_iso v ++ tail) = Some (cv v, tail).
+Print Assumptions c03_ser_scalar_reads.
+
+(** (2) arrays of scalars (the look-ahead after an integer never fires: only a reference ends in a bare R) *)
+Theorem c03_ser_array_reads : forall l, forallb scalar l = true -> ck_ok (C09.Model.OArr l) = true -> forall tail fuel, TailOk tail ->
+  (length (C09.Model.ser C09.Model.esc_iso (C09.Model.OArr l)) < fuel)%nat ->
+  parse_obj fuel (C09.Model.ser C09.Model.esc_iso (C09.Model.OArr l) ++ tail) = Some (cv (C09.Model.OArr l), tail).
+Proof. exact read_array_flat. Qed.
+Check c03_ser_array_reads : forall l, forallb scalar l = true -> ck_ok (C09.Model.OArr l) = true -> forall tail fuel, TailOk tail ->
+  (length (C09.Model.ser C09.Model.esc_iso (C09.Model.OArr l)) < fuel)%nat ->
+  parse_obj fuel (C09.Model.ser C09.Model.esc_iso (C09.Model.OArr l) ++ tail) = Some (cv (C09.Model.OArr l), tail).
+Print Assumptions c03_ser_array_reads.
+
+(** (3) dictionaries of scalars, entries in the writer's sorted order, keys #XX-decoded *)
+Theorem c03_ser_dict_reads : forall l, forallb (fun kv => scalar (snd kv)) l = true -> ck_ok (C09.Model.ODict l) = true -> forall tail fuel, TailOk tail ->
+  (length (C09.Model.ser C09.Model.esc_iso (C09.Model.ODict l)) < fuel)%nat ->
+  parse_obj fuel (C09.Model.ser C09.Model.esc_iso (C09.Model.ODict l) ++ tail) = Some (cv (C09.Model.ODict l), tail).
+Proof. exact read_dict_flat. Qed.
+Check c03_ser_dict_reads : forall l, forallb (fun kv => scalar (snd kv)) l = true -> ck_ok (C09.Model.ODict l) = true -> forall tail fuel, TailOk tail ->
+  (length (C09.Model.ser C09.Model.esc_iso (C09.Model.ODict l)) < fuel)%nat ->
+  parse_obj fuel (C09.Model.ser C09.Model.esc_iso (C09.Model.ODict l) ++ tail) = Some (cv (C09.Model.ODict l), tail).
+Print Assumptions c03_ser_dict_reads.
+
+(** (4) full nesting *)
+Theorem c03_ser_value_reads : forall v, ck_ok v = true -> forall tail fuel, TailOk tail ->
+  (length (C09.Model.ser C09.Model.esc_iso v) < fuel)%nat ->
+  parse_obj fuel (C09.Model.ser C09.Model.esc_iso v ++ tail) = Some (cv v, tail).
+Proof. exact read_ser. Qed.
+Check c03_ser_value_reads : forall v, ck_ok v = true -> forall tail fuel, TailOk tail ->
+  (length (C09.Model.ser C09.Model.esc_iso v) < fuel)%nat ->
+  parse_obj fuel (C09.Model.ser C09.Model.esc_iso v ++ tail) = Some (cv v, tail).
+Print Assumptions c03_ser_value_reads.
+
+(** the hypothesis of c03_writer_output_valid for a plain body *)
+Theorem c03_bodyok_of_ser : forall (P : N * N -> Prop) v, ck_ok v = true ->
+  (forall r, In r (orefs v) -> P r) -> BodyOk P (C09.Model.ser C09.Model.esc_iso v).
+Proof. exact bodyok_of_ser. Qed.
+Check c03_bodyok_of_ser : forall (P : N * N -> Prop) v, ck_ok v = true ->
+  (forall r, In r (orefs v) -> P r) -> BodyOk P (C09.Model.ser C09.Model.esc_iso v).
+Print Assumptions c03_bodyok_of_ser.
+
+(** the same for C09's class [wf] with the one side condition *)
+Theorem c03_bodyok_of_ser_wf : forall (P : N * N -> Prop) v, C09.Model.wf v = true -> nonul_names v = true ->
+  (forall r, In r (orefs v) -> P r) -> BodyOk P (C09.Model.ser C09.Model.esc_iso v).
+Proof. exact bodyok_of_ser_wf. Qed.
+Check c03_bodyok_of_ser_wf : forall (P : N * N -> Prop) v, C09.Model.wf v = true -> nonul_names v = true ->
+  (forall r, In r (orefs v) -> P r) -> BodyOk P (C09.Model.ser C09.Model.esc_iso v).
+Print Assumptions c03_bodyok_of_ser_wf.
+
+(** a stream body whose dictionary is serialised by the model *)
+Theorem c03_bodyok_of_ser_stream : forall (P : N * N -> Prop) l data, ck_ok (C09.Model.ODict l) = true ->
+  dict_get (S_ "Length") (cv_entries l) = Some (OInt (Z.of_N (len data))) ->
+  (forall r, In r (orefs (C09.Model.ODict l)) -> P r) ->
+  BodyOk P (C09.Model.ser C09.Model.esc_iso (C09.Model.ODict l) ++ stream_open ++ data ++ stream_close).
+Proof. exact bodyok_of_ser_stream. Qed.
+Check c03_bodyok_of_ser_stream : forall (P : N * N -> Prop) l data, ck_ok (C09.Model.ODict l) = true ->
+  dict_get (S_ "Length") (cv_entries l) = Some (OInt (Z.of_N (len data))) ->
+  (forall r, In r (orefs (C09.Model.ODict l)) -> P r) ->
+  BodyOk P (C09.Model.ser C09.Model.esc_iso (C09.Model.ODict l) ++ stream_open ++ data ++ stream_close).
+Print Assumptions c03_bodyok_of_ser_stream.
+
+(** the side condition excludes a class this checker really rejects: a NUL byte in a name is written #00 (ISO 32000-1 7.3.5 forbids it) *)
+Theorem c03_nul_name_refuted : exists v, C09.Model.wf v = true /\ nonul_names v = false /\
+  read_body (10 :: C09.Model.ser C09.Model.esc_iso v ++ obj_end) = None.
+Proof. exact nul_name_refuted. Qed.
+Check c03_nul_name_refuted : exists v, C09.Model.wf v = true /\ nonul_names v = false /\
+  read_body (10 :: C09.Model.ser C09.Model.esc_iso v ++ obj_end) = None.
+Print Assumptions c03_nul_name_refuted.
+
+(** (5) the validity theorem without [BodyOk]: [SerBody ids body] :=
+      (exists v, body = ser esc_iso v /\ ck_ok v = true /\ forall r, In r (orefs v) -> RefOk ids r)
+   \/ (exists l data, body = ser esc_iso (ODict l) ++ "\nstream\n" ++ data ++ "\nendstream" /\ ck_ok (ODict l) = true /\
+         dict_get "Length" (cv_entries l) = Some (OInt |data|) /\ forall r, In r (orefs (ODict l)) -> RefOk ids r) *)
+Theorem c03_writer_output_valid_ser : forall ver objs root info,
+  VerOk ver ->
+  (forall id body, In (id, body) objs -> SerBody (List.map fst objs) body) ->
+  RefOk (List.map fst objs) (root, 0) -> RefOk (List.map fst objs) (info, 0) ->
+  len (emit ver objs root info) < 10000000000 ->
+  ValidPdf (emit ver objs root info).
+Proof. exact writer_output_valid_ser. Qed.
+Check c03_writer_output_valid_ser : forall ver objs root info,
+  VerOk ver ->
+  (forall id body, In (id, body) objs -> SerBody (List.map fst objs) body) ->
+  RefOk (List.map fst objs) (root, 0) -> RefOk (List.map fst objs) (info, 0) ->
+  len (emit ver objs root info) < 10000000000 ->
+  ValidPdf (emit ver objs root info).
+Print Assumptions c03_writer_output_valid_ser.
+
+(** (5') in C09's terms, stream bodies left to [BodyOk]: every NON-stream body is the serialiser's
+    bytes of a [wf] value (no NUL byte in names) whose references are among the written ids *)
+Theorem c03_writer_output_valid_ser_wf : forall ver objs root info,
+  VerOk ver ->
+  (forall id body, In (id, body) objs ->
+     (exists v, body = C09.Model.ser C09.Model.esc_iso v /\ C09.Model.wf v = true /\ nonul_names v = true /\
+                forall r, In r (orefs v) -> RefOk (List.map fst objs) r)
+     \/ (exists dv data, body = dv ++ stream_open ++ data ++ stream_close /\
+                          BodyOk (RefOk (List.map fst objs)) body)) ->
+  RefOk (List.map fst objs) (root, 0) -> RefOk (List.map fst objs) (info, 0) ->
+  len (emit ver objs root info) < 10000000000 ->
+  ValidPdf (emit ver objs root info).
+Proof. exact writer_output_valid_ser_wf. Qed.
+Check c03_writer_output_valid_ser_wf : forall ver objs root info,
+  VerOk ver ->
+  (forall id body, In (id, body) objs ->
+     (exists v, body = C09.Model.ser C09.Model.esc_iso v /\ C09.Model.wf v = true /\ nonul_names v = true /\
+                forall r, In r (orefs v) -> RefOk (List.map fst objs) r)
+     \/ (exists dv data, body = dv ++ stream_open ++ data ++ stream_close /\
+                          BodyOk (RefOk (List.map fst objs)) body)) ->
+  RefOk (List.map fst objs) (root, 0) -> RefOk (List.map fst objs) (info, 0) ->
+  len (emit ver objs root info) < 10000000000 ->
+  ValidPdf (emit ver objs root info).
+Print Assumptions c03_writer_output_valid_ser_wf.
+
+Check (eq_refl : SerBody = fun ids body =>
+  (exists v, body = C09.Model.ser C09.Model.esc_iso v /\ ck_ok v = true /\ forall r, In r (orefs v) -> RefOk ids r)
+  \/ (exists l data, body = C09.Model.ser C09.Model.esc_iso (C09.Model.ODict l) ++ stream_open ++ data ++ stream_close /\
+        ck_ok (C09.Model.ODict l) = true /\
+        dict_get (S_ "Length") (cv_entries l) = Some (OInt (Z.of_N (len data))) /\
+        forall r, In r (orefs (C09.Model.ODict l)) -> RefOk ids r)).
+
+(** the hypotheses are satisfiable on non-trivial values: a nested dictionary with escaped names,
+    signed integers, reals, both string kinds, references, and the sequence  3 0 /R ; a four-object
+    file (dictionaries, a stream) whose validity follows from the theorem *)
+Example c03_bodyok_of_ser_sample : ck_ok sample_value = true /\ BodyOk (RefOk [1; 2]) (C09.Model.ser C09.Model.esc_iso sample_value).
+Proof. split; [apply sample_in_class|exact sample_bodyok]. Qed.
+Example c03_writer_output_valid_ser_hyps :
+  VerOk (S_ "1.7") /\
+  (forall id body, In (id, body) ser_demo_objs -> SerBody (List.map fst ser_demo_objs) body) /\
+  RefOk (List.map fst ser_demo_objs) (1, 0) /\ RefOk (List.map fst ser_demo_objs) (3, 0) /\
+  len (emit (S_ "1.7") ser_demo_objs 1 3) < 10000000000.
+Proof. exact ser_demo_hyps. Qed.
+Example c03_ser_demo_valid : ValidPdf (emit (S_ "1.7") ser_demo_objs 1 3).
+Proof. exact ser_demo_valid_by_theorem. Qed.
